@@ -57,7 +57,10 @@ var c03Rules = []c03Rule{
 	{name: "non-bool-condition", stmt: []string{
 		"{\n    let ia: i32 = 1;\n    if ia {\n        let iz: i32 = 0;\n    }\n}",
 		"{\n    let ia: i32 = 1;\n    while ia {\n        break;\n    }\n}",
-		"{\n    let sa := \"x\";\n    if sa {\n        let iz: i32 = 0;\n    }\n}"}},
+		"{\n    let sa := \"x\";\n    if sa {\n        let iz: i32 = 0;\n    }\n}",
+		"{\n    let ia: i32 = 1;\n    if ia > 5 {\n        let iz: i32 = 0;\n    } else if ia {\n        let iy: i32 = 1;\n    }\n}",
+		"{\n    let ia: i32 = 1;\n    if ia > 5 {\n        let iz: i32 = 0;\n    } else if ia < 0 {\n        let iy: i32 = 1;\n    } else if ia {\n        let ix: i32 = 2;\n    } else {\n        let iw: i32 = 3;\n    }\n}",
+		"{\n    let fa: f64 = 1.0;\n    while fa {\n        break;\n    }\n}"}},
 	{name: "non-bool-logical-operand", stmt: []string{
 		"{\n    let ia: i32 = 1;\n    let bb := ia && true;\n}",
 		"{\n    let ia: i32 = 1;\n    let bb := true || ia;\n}",
@@ -89,7 +92,10 @@ var c03Rules = []c03Rule{
 	{name: "optional-used-as-value", stmt: []string{
 		"{\n    let io: i32? = 5;\n    let iv: i32 = io;\n}",
 		"{\n    let io: i32? = 5;\n    let ir := injTake(io, 2);\n}",
-		"{\n    let io: i32? = none;\n    let iv: i32 = io + 1;\n}"}},
+		"{\n    let io: i32? = none;\n    let iv: i32 = io + 1;\n}",
+		"{\n    let io: i32? = 5;\n    let ib: i32? = none;\n    if io != none || ib != none {\n        let iv: i32 = io;\n    }\n}",
+		"{\n    let io: i32? = 5;\n    let ib: i32? = none;\n    if io == none && ib == none {\n        let iz: i32 = 0;\n    } else {\n        let iv: i32 = ib;\n    }\n}",
+		"{\n    let io: i32? = 5;\n    if io == none {\n        let iv: i32 = io;\n    }\n}"}},
 	{name: "struct-field-errors", stmt: []string{
 		"{\n    let is: InjS = { .A = 1 };\n}",
 		"{\n    let is: InjS = { .A = 1, .B = 2, .C = 3 };\n}",
@@ -211,28 +217,35 @@ func checkC03(c *Ctx) error {
 		bases = append(bases, p.Source())
 		sites := gen.Sites(p)
 		for ri, rule := range rules {
-			// one spelling per (base, rule), rotating; statement snippets go to a random site
+			// k spellings per (base, rule), rotating so that 14 bases cover every spelling of every
+			// rule; statement snippets go to a random site
 			nsp := len(rule.stmt) + len(rule.decls)
-			sp := (b + ri) % nsp
-			if !c.Quick() && b%2 == 1 {
-				sp = rng.IntN(nsp)
+			k := c.N(4, 2)
+			if k > nsp {
+				k = nsp
 			}
-			id := fmt.Sprintf("gen:%d:%d:%s:%d", c.Env.Seed, b, rule.name, sp)
-			if sp < len(rule.stmt) {
-				site := sites[rng.IntN(len(sites))]
-				at := rng.IntN(site.Max + 1)
-				undo := gen.InsertAt(site, at, &gen.Raw{Text: rule.stmt[sp]})
-				cx := site.Context
-				if w := exprCtx[rule.stmt[sp]]; w != "" {
-					cx += "/" + w
+			for j := 0; j < k; j++ {
+				sp := (b*k + j + ri) % nsp
+				if !c.Quick() && b%2 == 1 {
+					sp = rng.IntN(nsp)
 				}
-				muts = append(muts, mut{id: id, rule: rule.name, spelling: rule.stmt[sp], ctx: cx, src: p.Source()})
-				undo()
-			} else {
-				d := rule.decls[sp-len(rule.stmt)]
-				p.RawDecls = append(p.RawDecls, d)
-				muts = append(muts, mut{id: id, rule: rule.name, spelling: d, ctx: "top-level-function", src: p.Source()})
-				p.RawDecls = p.RawDecls[:len(p.RawDecls)-1]
+				id := fmt.Sprintf("gen:%d:%d:%s:%d", c.Env.Seed, b, rule.name, sp)
+				if sp < len(rule.stmt) {
+					site := sites[rng.IntN(len(sites))]
+					at := rng.IntN(site.Max + 1)
+					undo := gen.InsertAt(site, at, &gen.Raw{Text: rule.stmt[sp]})
+					cx := site.Context
+					if w := exprCtx[rule.stmt[sp]]; w != "" {
+						cx += "/" + w
+					}
+					muts = append(muts, mut{id: id, rule: rule.name, spelling: rule.stmt[sp], ctx: cx, src: p.Source()})
+					undo()
+				} else {
+					d := rule.decls[sp-len(rule.stmt)]
+					p.RawDecls = append(p.RawDecls, d)
+					muts = append(muts, mut{id: id, rule: rule.name, spelling: d, ctx: "top-level-function", src: p.Source()})
+					p.RawDecls = p.RawDecls[:len(p.RawDecls)-1]
+				}
 			}
 		}
 	}
@@ -255,6 +268,7 @@ func checkC03(c *Ctx) error {
 		}
 	}
 	matrix := map[string]int{}
+	spellSeen := map[string]bool{}
 	sampled := map[string]int{}
 	var nativeSample []int
 	for k, m := range muts {
@@ -272,6 +286,9 @@ func checkC03(c *Ctx) error {
 			continue
 		}
 		if res.Accepted() {
+			if !c.ConfirmBudget() {
+				continue
+			}
 			if cli, _ := c.ConfirmCLI(dirs[len(bases)+k]); !cli.Accepted() {
 				r.Inconclusive("in-process and CLI verdicts differ for " + m.id)
 				continue
@@ -285,6 +302,7 @@ func checkC03(c *Ctx) error {
 		}
 		r.Nontrivial(m.src)
 		matrix[m.rule+" x "+m.ctx]++
+		spellSeen[m.spelling] = true
 		r.Count("rejected."+m.rule, 1)
 		if sampled[m.rule] < c.N(1, 6) {
 			sampled[m.rule]++
@@ -292,6 +310,7 @@ func checkC03(c *Ctx) error {
 		}
 	}
 	r.Set("rule_x_context_matrix", matrix)
+	r.Set("distinct_spellings_rejected", len(spellSeen))
 	// native build of a sample: no artifact may be left behind
 	bin, err := c.Env.Ferret()
 	if err != nil {
